@@ -1,11 +1,14 @@
-"""C16 — legacy field-map tokeniser and sequential consumption (bounded Kani kernels)."""
+"""C16 — field-map tokeniser (source level on structured texts) and sequential consumption (bounded Kani kernels)."""
 import e1
+import e2misc
 
 
 def run(tier, seed, ev, jobs):
+    rc = e2misc.run_tokeniser("C16", ev)
     ev.outside.append("split_into_sequences / parse_repetitive_sequence; texts longer than the stated sizes; find_field_with_variant_sequential_constrained")
-    return e1.run_e1("C16", tier, seed, ev, jobs)
+    return e1.combine(rc, e1.run_e1("C16", tier, seed, ev, jobs))
 
 
 def replay(path):
-    return e1.replay_file(path)
+    r = e2misc.replay_file(path)
+    return r if r is not None else e1.replay_file(path)
